@@ -124,9 +124,9 @@ REGISTRY = {
         "rule": "random series (delete-then-recreate, create-then-modify, rename chains, mode changes, failing patches); goal g; single = push g / push <name> / push -a; "
                 "split = random sequence of push / push n / push <name> / push -a with threads 1/2/4; the single invocation's record is also compared with what the goal means by construction; "
                 "15% of the series keep patches in sub-directories (one named like the patch directory, with the base name of an earlier top-level patch), 20% of the workspaces are driven with -d (relative and absolute spellings) from the parent directory, "
-                "10% reject into a directory created by an earlier patch of the series. Non-trivial: >= 2 invocations of the split applied something.",
+                "10% reject into a directory created by an earlier patch of the series, 2% are the directed shape of known finding D28 (a path changes between file and directory). Non-trivial: >= 2 invocations of the split applied something.",
         "floor": floors(("splits-with>=2-applying-invocations", 200), ("idempotence-checked", 50), ("failure-resumption-checked", 50), ("goal-checked-against-ground-truth", 1000),
-                        ("workspaces-with-patches-in-sub-directories", 100), ("workspaces-driven-with--d:relative", 100)),
+                        ("workspaces-with-patches-in-sub-directories", 100), ("workspaces-driven-with--d:relative", 100), ("shape:path-changes-between-file-and-directory", 20)),
     },
     "C10": {
         "level_text": "real --dry-run executions under strace: full recursive snapshot (bytes, mode, inode, nlink, mtime) before/after, audit of every write-class syscall, and comparison of exit status / failing patch with a real run on a copy",
